@@ -93,9 +93,28 @@ def bits_str(bits):
     return " ".join(out)
 
 
+class XorBit:
+    """exactly a ^ b for two input-bit copies a, b (`(p ^ q) & mask == 0` is `p == q` on the masked bits)"""
+    __slots__ = ("a", "b")
+
+    def __init__(self, a, b):
+        self.a, self.b = a, b
+
+    def __eq__(self, o):
+        return isinstance(o, XorBit) and {self.a, self.b} == {o.a, o.b}
+
+    def __hash__(self):
+        return hash(frozenset([self.a, self.b]))
+
+    def __repr__(self):
+        return "(%r ^ %r)" % (self.a, self.b)
+
+
 def deps(b):
     if b in (0, 1):
         return frozenset()
+    if isinstance(b, XorBit):
+        return deps(b.a) | deps(b.b)
     if isinstance(b, tuple):
         return frozenset([(b[1], b[2])])
     return b
@@ -104,6 +123,8 @@ def deps(b):
 def bnot(b):
     if b in (0, 1):
         return 1 - b
+    if isinstance(b, XorBit):
+        return XorBit(bnot(b.a), b.b)
     if isinstance(b, tuple):
         return (b[0], b[1], b[2], not b[3])
     return b
@@ -148,6 +169,8 @@ def bxor(a, b):
         return bnot(a)
     if a == b:
         return 0
+    if isinstance(a, tuple) and isinstance(b, tuple):
+        return XorBit(a, b)
     return deps(a) | deps(b)
 
 
@@ -325,6 +348,15 @@ def compare(op, a, b):
     if op in ("Eq", "Ne") and a.bits is not None and b.bits is not None:
         # decide if some bit pair is definitely different
         d = frozenset()
+        abits, bbits = list(a.bits), list(b.bits)
+        for i, (x, y) in enumerate(zip(abits, bbits)):
+            # (x ^ y) compared with 0 is x compared with y
+            if isinstance(x, XorBit) and y == 0:
+                abits[i], bbits[i] = x.a, x.b
+            elif isinstance(y, XorBit) and x == 0:
+                abits[i], bbits[i] = y.a, y.b
+        a = W(a.w, a.signed, bits=abits)
+        b = W(b.w, b.signed, bits=bbits)
         for x, y in zip(a.bits, b.bits):
             if x in (0, 1) and y in (0, 1):
                 if x != y:
@@ -643,6 +675,12 @@ class Interp:
             return binop("Rem", x, y)
         if nt.startswith("<ebr_impl::pointers::Tagged<T> as std::convert::From"):
             return {"__adt": "ebr_impl::pointers::Tagged", "ptr": args[0]}
+        mo = re.search(r"<impl std::cmp::PartialOrd for (\w+)>::(le|lt|ge|gt)$", tg) or \
+            re.search(r"<impl std::cmp::PartialEq for (\w+)>::(eq|ne)$", tg)
+        if mo and int_type(mo.group(1))[0]:
+            x = args[0][1] if isinstance(args[0], tuple) and args[0][0] == "ref" else args[0]
+            y = args[1][1] if isinstance(args[1], tuple) and args[1][0] == "ref" else args[1]
+            return compare({"le": "Le", "lt": "Lt", "ge": "Ge", "gt": "Gt", "eq": "Eq", "ne": "Ne"}[mo.group(2)], x, y)
         m = re.search(r"<impl std::convert::From<(\w+)> for (\w+)>::from$", tg)
         if m and int_type(m.group(1))[0] and int_type(m.group(2))[0]:
             return cast(args[0], "IntToInt", m.group(2))       # u64::from(x: u32): the lossless widening `as`
